@@ -36,7 +36,7 @@ Inductive report :=
 | RChar (c : N)                                        (* a printable character typed *)
 | RKittyKey (k : kname) (mods : N)
 | RKeyLevel (flags : N)
-| RMouse (m : mname) (mods : N) (press motion : bool) (row col : N)
+| RMouse (code : N) (press : bool) (row col : N)         (* SGR mouse report with the raw button code Cb *)
 | RCursor (row col : N)
 | RSize (ch cw ph pw : N)
 | RDecMode (mode status : N)
@@ -73,12 +73,20 @@ Definition kitty_code (k : kname) : option N :=
   | _ => None
   end.
 
-(* SGR mouse button codes; the two wheel codes are NAMED by the library *)
-Definition mouse_code (m : mname) : N :=
-  match m with
-  | MLeft => 0 | MMiddle => 1 | MRight => 2 | MMove => 3
-  | MWheelDown => 64 | MWheelUp => 65
-  end.
+(* xterm ctlseqs, "Extended coordinates" (SGR 1006): Cb = button + 4 shift + 8 meta + 16 control
+   + 32 motion; button: 0 MB1, 1 MB2, 2 MB3, 3 none (motion with no button down); + 64 for buttons
+   4..7 (64 / 65 wheel, 66 / 67 horizontal wheel); + 128 for buttons 8..11.
+   NAMES are the library's: 0 left, 1 middle, 2 right, 3 move, 64 "wheel down", 65 "wheel up";
+   the horizontal wheel and buttons 8..11 have no name in the library, such a report denotes no
+   named button.  (The library's Mouse event has no field for the motion flag: a drag report and a
+   click report of the same button denote the same event.) *)
+Definition mouse_name (code : N) : option mname :=
+  if 128 <=? code then None
+  else
+    let b := code mod 4 in
+    if 64 <=? code then (if b =? 0 then Some MWheelDown else if b =? 1 then Some MWheelUp else None)
+    else Some (if b =? 0 then MLeft else if b =? 1 then MMiddle else if b =? 2 then MRight else MMove).
+Definition mouse_mods (code : N) : N := (code / 4) mod 8.
 
 (* a channel value 0..255 written with `n` hex digits, scaled as XParseColor's rgb: syntax *)
 Definition chan (form : cform) (upper : bool) (v : N) : list N :=
@@ -155,9 +163,8 @@ Definition print (r : report) : list N :=
       | None => []
       end
   | RKeyLevel flags => CSI ++ [63] ++ digits flags ++ [117]
-  | RMouse m mods press motion row col =>
-      CSI ++ [60] ++ digits (mouse_code m + 4 * mods + (if motion then 32 else 0))
-          ++ [59] ++ digits (col + 1) ++ [59] ++ digits (row + 1) ++ [if press then 77 else 109]
+  | RMouse code press row col =>
+      CSI ++ [60] ++ digits code ++ [59] ++ digits (col + 1) ++ [59] ++ digits (row + 1) ++ [if press then 77 else 109]
   | RCursor row col => CSI ++ digits (row + 1) ++ [59] ++ digits (col + 1) ++ [82]
   | RSize ch cw ph pw =>
       CSI ++ [56; 59] ++ digits ch ++ [59] ++ digits cw ++ [116]
@@ -205,7 +212,11 @@ Definition denote (tab : list (list N * (kname * N))) (r : report) : tev :=
   | RChar c => EKey (KChar c) 0
   | RKittyKey k mods => EKey k mods
   | RKeyLevel flags => EKeyLevel flags
-  | RMouse m mods press _ row col => EMouse m (if press then N.lor mods MOD_PRESS else mods) row col
+  | RMouse code press row col =>
+      match mouse_name code with
+      | Some m => EMouse m (if press then mouse_mods code + MOD_PRESS else mouse_mods code) row col
+      | None => ERaw (print r)          (* no named button: the bytes are not an event of the library *)
+      end
   | RCursor row col => ECursor row col
   | RSize ch cw ph pw => ESize ch cw ph pw
   | RDecMode mode status => EDecMode mode status
@@ -274,7 +285,7 @@ Section Wf.
            | _ => false
            end
     | RKeyLevel flags => num_ok flags
-    | RMouse m mods press motion row col => (mods <? 8) && coord_ok row && coord_ok col
+    | RMouse code press row col => (code <? 256) && coord_ok row && coord_ok col
     | RCursor row col =>
         (* CSI 1 ; n R with n in 2..8 is a modified F3 of the key table: resolved for the key *)
         coord_ok row && coord_ok col && negb ((row =? 0) && (1 <=? col) && (col <=? 7))
